@@ -33,8 +33,11 @@ def parse_reply(line):
 def check_steps(initial_raw, steps, ci, ser, ncls):
     """initial_raw: raw snapshot before the first step.  Returns list of (step, reply dict) for
     every step that changed the file or had edits."""
-    drv = Driver("trace")
-    drv.send("INIT\t" + enc_toks(vsgrun.wire(initial_raw, ci, ser), ncls))
+    import subprocess
+
+    from leanio import DRIVER
+
+    lines = ["INIT\t" + enc_toks(vsgrun.wire(initial_raw, ci, ser), ncls)]
     out = []
     pending = []
     for st in steps:
@@ -47,19 +50,20 @@ def check_steps(initial_raw, steps, ci, ser, ncls):
         b3 = [x[:3] for x in b]
         a3 = [x[:3] for x in a]
         p, s = common_affixes(b3, a3)
-        drv.send("STEP\t%s\t%s\t%d\t%d\t%d\t%d\t%d" % (st.rule, st.kind, st.fixable, st.sev_error, st.disabled, 1 if st.remap else 0, 1 if st.edits is not None else 0))
+        lines.append("STEP\t%s\t%s\t%d\t%d\t%d\t%d\t%d" % (st.rule, st.kind, st.fixable, st.sev_error, st.disabled, 1 if st.remap else 0, 1 if st.edits is not None else 0))
         for e in st.edits or []:
             ln = e["line"] if isinstance(e["line"], int) and e["line"] >= 0 else 0
             start = e["start"] if isinstance(e["start"], int) and e["start"] >= 0 else 0
-            drv.send("EDIT\t%d\t%d\t%d\t%s" % (start, e["stop"] if e["stop"] is not None else start, ln, enc_toks(e["new"], ncls)))
-        drv.send("AFTER\t%d\t%d\t%s" % (p, s, enc_toks(a3[p : len(a3) - s], ncls)))
+            lines.append("EDIT\t%d\t%d\t%d\t%s" % (start, e["stop"] if e["stop"] is not None else start, ln, enc_toks(e["new"], ncls)))
+        lines.append("AFTER\t%d\t%d\t%s" % (p, s, enc_toks(a3[p : len(a3) - s], ncls)))
         pending.append(st)
-    drv.flush()
-    drv.p.stdin.close()
-    for st in pending:
-        line = drv.p.stdout.readline().rstrip("\n")
+    if not pending:
+        return out
+    proc = subprocess.run([DRIVER, "trace"], input="\n".join(lines) + "\n", stdout=subprocess.PIPE, text=True, encoding="utf-8")
+    replies = proc.stdout.split("\n")
+    for k, st in enumerate(pending):
+        line = replies[k] if k < len(replies) else ""
         if not line.startswith("R "):
             raise RuntimeError("driver: " + line)
         out.append((st, parse_reply(line)))
-    drv.p.wait()
     return out
